@@ -17,7 +17,8 @@ ASSUMPTIONS = ["population-split adjustments are requested after the last strati
 
 def payloads(tier, seed):
     n = 70 if tier == "quick" else 1500
-    return [{"seed": seed, "index": i} for i in range(n)] + [{"seed": seed, "index": i, "mode": "shared"} for i in range(n // 4)]
+    return [{"seed": seed, "index": i} for i in range(n)] + [{"seed": seed, "index": i, "mode": "shared"} for i in range(n // 4)] \
+        + [{"seed": seed, "index": i, "mode": "twins"} for i in range(n // 4)]
 
 def shared_task(W, payload):
     """two models built in one interpreter that SHARE their last Stratification object but differ in the layout before it
@@ -78,9 +79,77 @@ def shared_task(W, payload):
     return out
 
 
+def twins_task(W, payload):
+    """a baseline and a scenario model in ONE process that share nothing but use the same literal numbers in different roles (the split
+    proportions and the initial distribution of the scenario are those of the baseline in another order): the baseline's initial population,
+    evaluated with a freshly built runner BEFORE and AFTER the scenario has been built and evaluated, and the scenario's, must each be the
+    model's value"""
+    import interp as interp_mod
+    r = random.Random(f"C06t:{payload['seed']}:{payload['index']}")
+    prog = Gen(r, Opts(max_strats=2, force_strat=True, allow_requests=False, allow_computed=False, max_flows=3, allow_post_flows=False,
+                       allow_adjust=False, allow_mixing=False, allow_inf_adjust=False, rebalance_prob=0.5, split_bias=0.95, allow_param_split=False)).program()
+    out = mk_out(prog)
+    bump(out, "mode:baseline_and_scenario_in_one_process")
+    opsA = prog["build"]
+    opsB = copy.deepcopy(opsA)
+    changed = False
+    for op in opsB:
+        if op["op"] == "stratify" and op.get("split") and len(op["split"]) >= 2 and all("c" in kv[1] for kv in op["split"]):
+            vals = [kv[1] for kv in op["split"]]
+            vals = vals[1:] + vals[:1]
+            if vals != [kv[1] for kv in op["split"]]: changed = True
+            op["split"] = [[kv[0], v] for kv, v in zip(op["split"], vals)]
+        if op["op"] == "init_pop" and len(op.get("dist") or []) >= 2:
+            vals = [kv[1] for kv in op["dist"]]
+            vals = vals[1:] + vals[:1]
+            if vals != [kv[1] for kv in op["dist"]]: changed = True
+            op["dist"] = [[kv[0], v] for kv, v in zip(op["dist"], vals)]
+        if op["op"] == "adjust_split" and len(op.get("props") or []) >= 2 and all("c" in kv[1] for kv in op["props"]):
+            vals = [kv[1] for kv in op["props"]]
+            vals = vals[1:] + vals[:1]
+            op["props"] = [[kv[0], v] for kv, v in zip(op["props"], vals)]
+    if not changed:
+        bump(out, "twins:identical"); return out
+    IA = interp_mod.Interp(); IB = interp_mod.Interp()
+    for op in opsA:
+        if not IA.apply(op)["ok"]:
+            bump(out, "build_rejected"); return out
+    params = [[k, v] for k, v in prog["params"].items()]
+    L = W["rat"]
+    def model_value(opsX):
+        for op in opsX:
+            if not L.send(op)["ok"]: return {"ok": False}
+        return L.send({"op": "init_pop_eval", "params": params})
+    lnA = model_value(opsA)
+    def observe(label, I, ln, opsX):
+        I.runner = None
+        py = I.apply({"op": "init_pop_eval", "params": params})
+        out["evals"] += 1
+        if py["ok"] != ln["ok"]:
+            out["diffs"].append({"stage": "S6", "what": f"initial_population ({label}): raise / no-raise", "prescribed": True, "impl": py.get("err", "ok"),
+                                 "model": ln.get("err", "ok"), "program_A": opsA, "program_B": opsB, "task": {"module": "c06", "fn": "task", "payload": payload}})
+        elif py["ok"]:
+            out["cases"].append(prog_hash(opsX) + ":" + label)
+            if not vec_close(py["x0"], ln["x0"], 1e-12):
+                out["diffs"].append({"stage": "S6", "what": f"initial_population ({label})", "prescribed": True, "impl": py["x0"],
+                                     "model": [float(v) for v in ln["x0"]], "program_A": opsA, "program_B": opsB,
+                                     "task": {"module": "c06", "fn": "task", "payload": payload}})
+    observe("baseline, before the scenario exists", IA, lnA, opsA)
+    okB = all(IB.apply(op)["ok"] for op in opsB)
+    if okB:
+        lnB = model_value(opsB)
+        observe("scenario", IB, lnB, opsB)
+    observe("baseline, after the scenario was built and evaluated", IA, lnA, opsA)
+    if payload["index"] == 0:
+        out["sample"] = {"twins": True, "program_A": opsA, "program_B": opsB}
+    return out
+
+
 def task(W, payload):
     if payload.get("mode") == "shared":
         return shared_task(W, payload)
+    if payload.get("mode") == "twins":
+        return twins_task(W, payload)
     r = random.Random(f"C06:{payload['seed']}:{payload['index']}")
     prog = Gen(r, Opts(max_strats=3, allow_array_pop=True, allow_requests=False, allow_computed=False, max_flows=3,
                        allow_adjust=False, allow_mixing=False, allow_inf_adjust=False, rebalance_prob=0.8,
